@@ -671,7 +671,13 @@ impl World {
     fn flush_wire(&mut self) {
         let (s, len) = {
             let w = self.wr.0.borrow();
-            (hex(&w.out[self.wmark..]), w.out.len())
+            let fresh = &w.out[self.wmark..];
+            if fresh.len() > (64 << 20) {
+                // packets near the protocol's maximum (256 MiB): length, digest and head instead of half a gigabyte of hex
+                (format!("L{}:{:08x}:{}", fresh.len(), fnv(fresh), hex(&fresh[..16])), w.out.len())
+            } else {
+                (hex(fresh), w.out.len())
+            }
         };
         if len > self.wmark {
             self.wmark = len;
